@@ -436,6 +436,23 @@ func checkC11(w *World, c *Check, tier string) {
 			}
 		}
 	}
+	// the intransitive activities (IntransitiveActivity, Question) are activities too: they have no object, but their
+	// actor and target are walked like an Activity's
+	for _, tn := range []string{"IntransitiveActivity", "Question"} {
+		m := w.Method(tn, "Clean")
+		if m == nil {
+			c.bad("C11.walk", "anchor:"+tn+".Clean", "-", "not found")
+			continue
+		}
+		aw := walked(m)
+		for _, f := range []string{"Actor", "Target"} {
+			if aw[f] {
+				c.ok("C11.walk", tn+"."+f, w.FuncPos(m), "passed to CleanRecipients on every path")
+			} else {
+				c.bad("C11.walk", tn+"."+f, w.FuncPos(m), fmt.Sprintf("%s.Clean does not (unconditionally) clean the activity's %s: an embedded %s keeps its bto/bcc", tn, f, strings.ToLower(f)))
+			}
+		}
+	}
 
 	// ---- delegate + recurse (abstract interpretation) ----
 	objPtr := types.NewPointer(objInfo.Named)
